@@ -1,6 +1,7 @@
 (* Props/C17.v — theorems of property C17 (snapshot journalling).  Statements only; proofs in Proofs/Journal*.v. *)
-From Coq Require Import ZArith List Bool Sorted Permutation.
+From Coq Require Import ZArith List Bool Sorted Permutation Lia.
 From EV Require Import Res Arr Journal JournalSpec JournalBase JournalWalk JournalMerge JournalSort JournalMain JournalFinal.
+From EV Require Import JournalKeys JournalKeysSpec JournalKeysProofs.
 Import ListNotations.
 Open Scope Z_scope.
 
@@ -150,3 +151,58 @@ Theorem versions_physical : forall okeys ovf k,
   versions okeys ovf k = filter (fun i => nthZ okeys i =? k) (upto (length okeys)).
 Proof. exact JournalFinal.versions_physical. Qed.
 Print Assumptions versions_physical.
+
+
+(* ---- strengthening (work/SC17): key domains and size parameters --------------------------------------------------- *)
+
+(* 9. fixed-width byte-string keys (numpy S<w>): the code of a cell (big-endian value of the w stored, NUL-padded bytes)
+      is an order isomorphism from the cells under bytewise unsigned lexicographic order - the order of np.argsort and
+      of the kernels' <, >, == on such keys - to Z.  No stripping of blanks, no stop at an embedded NUL, no sign. *)
+Theorem key_enc_order : forall w a b, is_bytes a -> is_bytes b ->
+  (key_lt w a b <-> key_enc w a < key_enc w b).
+Proof. exact key_enc_lt_iff. Qed.
+Print Assumptions key_enc_order.
+
+Theorem key_enc_injective : forall w a b, is_bytes a -> is_bytes b ->
+  (key_eq w a b <-> key_enc w a = key_enc w b).
+Proof. exact key_enc_eq_iff. Qed.
+Print Assumptions key_enc_injective.
+
+Example key_enc_hyps : is_bytes [112;48;55] /\ is_bytes [112;48;55;32] /\
+  key_lt 4 [112;48;55] [112;48;55;32] /\ ~ key_eq 4 [112;48;55] [112;48;55;32] /\ key_eq 4 [112;0] [112].
+Proof.
+  assert (B1 : is_bytes [112;48;55]) by (repeat constructor; lia).
+  assert (B2 : is_bytes [112;48;55;32]) by (repeat constructor; lia).
+  split; [exact B1|]. split; [exact B2|]. split; [|split].
+  - apply key_enc_lt_iff; [exact B1|exact B2|]. vm_compute. reflexivity.
+  - intros H. apply key_enc_eq_iff in H; [|exact B1|exact B2]. vm_compute in H. discriminate H.
+  - reflexivity.
+Qed.
+Print Assumptions key_enc_hyps.
+
+(* "per key in ascending order" over byte keys: the ascending distinct codes are the codes of the ascending
+   (lexicographic) distinct cells *)
+Theorem journal_keys_ascending_lex : forall w okeys nkeys, Forall is_bytes okeys -> Forall is_bytes nkeys ->
+  all_keys (map (key_enc w) okeys) (map (key_enc w) nkeys) = map be_val (all_keys_lex w okeys nkeys).
+Proof. exact all_keys_enc. Qed.
+Print Assumptions journal_keys_ascending_lex.
+
+(* 10. journal_table on byte keys, executed with any ops.DEFAULT_CHUNKSIZE = cs and any field chunk size scs:
+       exactly the per-key history specification over the codes (all sizes, arbitrary physical order). *)
+Theorem journal_table_bytes_correct : forall w cs scs fuel okeys ovf nkeys fields,
+  length okeys = length ovf -> Forall is_bytes okeys -> Forall is_bytes nkeys ->
+  NoDup (map (pad w) nkeys) -> Forall wf_field fields ->
+  Z.of_nat fuel > len okeys + len nkeys ->
+  journal_table_bytes w cs scs fuel okeys ovf nkeys fields =
+  Ok (journal_spec (map (key_enc w) okeys) ovf (map (key_enc w) nkeys) fields).
+Proof. exact JournalKeysProofs.journal_table_bytes_correct. Qed.
+Print Assumptions journal_table_bytes_correct.
+
+(* 11. the size parameters are unobservable: whatever ops.DEFAULT_CHUNKSIZE / the chunksize defaults / the field chunk
+       size are, the result is the specification (which does not mention them). *)
+Theorem journal_table_size_independent : forall cs scs fuel okeys ovf nkeys fields,
+  length okeys = length ovf -> NoDup nkeys -> Forall wf_field fields ->
+  Z.of_nat fuel > len okeys + len nkeys ->
+  journal_table_sized cs scs fuel okeys ovf nkeys fields = Ok (journal_spec okeys ovf nkeys fields).
+Proof. exact JournalKeysProofs.journal_table_size_independent. Qed.
+Print Assumptions journal_table_size_independent.
